@@ -37,11 +37,11 @@ CHECKS = {
    WORLD_NOTE + " The for-all over messages/seeds is sampled; the rare-event cases of the rejection loop are reached only as often as the seeded volume allows (reported as reach probes in C05).",
    "deterministic simulation: seeded lifecycle histories with restarts, replica refinement against a reference pair", "DESIGN.md 4.7"),
  "C06": chk("C06", "exploration",
-   "World simulation with misrouting and framing faults on the channel: an intact signed tuple is delivered (a) to the verifier endpoint of every other mode / pre-hash function, (b) with the concatenation context||message split at another boundary (the classic length-prefix corruption), (c) as the formatted pre-hash input OID||PH(M) presented to the pure ML-DSA endpoint as the message. Every honest public-key replica must reject. Catches a missing context-length byte or a missing domain byte even when signer and verifier share the defect.",
+   "World simulation with misrouting and framing faults on the channel: an intact signed tuple is delivered (a) to the verifier endpoint of every other mode / pre-hash function, (b) with the concatenation context||message split at another boundary (the classic length-prefix corruption; absolute positions and the tuple's own boundary moved by +-1, +-2, +-8 bytes), (c) as the formatted pre-hash input OID||PH(M) presented to the pure ML-DSA endpoint as the message. Every honest public-key replica must reject. Catches a missing context-length byte or a missing domain byte even when signer and verifier share the defect.",
    WORLD_NOTE + " Messages crafted by an adversary to mimic the other mode's formatted input beyond the mechanical OID||PH(M) case, and alignments that must be searched for, are not reached.",
    "deterministic simulation: misrouting / re-framing channel faults over seeded lifecycle histories", "DESIGN.md 4.7"),
  "C07": chk("C07", "exploration",
-   "World simulation: signing with contexts of 256, 257, 300, 511, 512, 1000 and 65791 bytes must fail in every mode and with every replica; signing with every context length class 0..255 must succeed; an intact tuple replayed by the channel with an over-long context - the original extended by 256 or 512 bytes (same length modulo 256), replaced by 256 or 257 bytes, or re-framed so that the boundary moves by exactly 256 (the aliasing case of the one-byte length field) - must be rejected by every public-key replica.",
+   "World simulation: signing with contexts of 256, 257, 300, 511, 512, 1000, 65791 and 2^32+k bytes (k in {0,1,3,32,255}: the widths at which a length held in 8, 16 or 32 bits wraps; the 4 GiB buffer is untouched zero pages, so it costs nothing unless the library reads it) must fail in every mode and with every replica, through the public and the internal signing interface, and every verifier replica must reject the tuple signed last under that context; signing with every context length class 0..255 must succeed; an intact tuple replayed by the channel with an over-long context - the original extended by 256 or 512 bytes (same length modulo 256), replaced by 256 or 257 bytes, or re-framed so that the boundary moves by exactly 256 (the aliasing case of the one-byte length field) - must be rejected by every public-key replica.",
    WORLD_NOTE + " Weak tie to the family (the statement is a function of the context length); what the simulator adds is the replay/re-framing channel fault that exhibits the aliasing when signer and verifier guards disagree. Context lengths are sampled from the listed classes, not enumerated 0..N.",
    "deterministic simulation: replay / re-framing channel faults with over-long contexts over seeded histories", "DESIGN.md 4.7"),
  "C08": chk("C08", "fault_enumeration",
@@ -81,7 +81,7 @@ CHECKS = {
    "Weakest tie to the technique family (no fault or schedule in the statement; said so in DESIGN.md 4.6). Behavioural equality is judged on the seeded workload, warnings on the pinned stable toolchain.",
    "deterministic simulation replayed across all build configurations (history-digest diff)", "DESIGN.md 4.6"),
  "C16": chk("C16", "exploration",
-   "Lifecycle simulation: the simulator owns creation path, use history (including uses during which the RNG device fails), container and destruction instant of every key object in an inspectable arena, and reads back every byte after drop_in_place. Exhaustive (set x type x provenance x container) matrix with seeded use histories, provenances including keys loaded from a faulted store (zero prefix, lost write, zero block, bit rot); two feature builds; a third harness (dropspy) built with fat LTO, panic=abort, opt-level 3 drops boxed keys as an application would (one drop site per key type) and reads the freed memory back through /proc/self/mem, so that a wipe the optimiser is allowed to delete is seen to be missing; the read-back discipline of the arena is validated under Miri in the thorough tier.",
+   "Lifecycle simulation: the simulator owns creation path, use history (including uses during which the RNG device fails), container and destruction instant of every key object in an inspectable arena, and reads back every byte after drop_in_place. Exhaustive (set x type x provenance x container) matrix with seeded use histories, provenances including keys loaded from a faulted store (zero prefix, lost write, zero block, bit rot, and crash-point enumeration: the key-file write torn after EVERY byte count onto a zero-filled medium, one key pair per set, both key types); two feature builds; a third harness (dropspy) built with fat LTO, panic=abort, opt-level 3 drops boxed keys as an application would (one drop site per key type) and reads the freed memory back through /proc/self/mem, so that a wipe the optimiser is allowed to delete is seen to be missing; the read-back discipline of the arena is validated under Miri in the thorough tier.",
    "Compiler-made copies on moves are outside the statement and not examined. Relies on volatile reads through the allocation's own raw pointer after drop_in_place (validated under Miri); dropspy relies on glibc malloc leaving a freed 4-32 KiB block in place apart from its first 64 bytes, and on /proc/self/mem.",
    "deterministic simulation: object-destruction events in an inspectable arena", "DESIGN.md 4.4"),
 }
